@@ -211,6 +211,13 @@ def tokenize_tag(tag):
         elif c in "()|*+?":
             out.append((c, None))
             i += 1
+        elif c.isalpha() or c == "_":
+            # a bare identifier matches a token by its type (without capturing it)
+            j = i
+            while j < len(tag) and (tag[j].isalnum() or tag[j] == "_"):
+                j += 1
+            out.append(("tok", tag[i:j]))
+            i = j
         else:
             raise Unsupported("participle tag syntax outside the translated subset: %r in %r" % (c, tag))
     return out
@@ -610,6 +617,8 @@ def analyse(tier, seed):
             tmodel = {"tokens": dict(toks), "structs": dump["structs"], "memo": {}, "open": set()}
             tmodel["tokens"]["Ident"] = ("lit", "i")
             tmodel["tokens"]["Regex"] = ("lit", "g")
+            if "Whitespace" in tmodel["tokens"]:
+                tmodel["tokens"]["Whitespace"] = ("chars", {" ", "w"})  # token symbols: a blank, any other white space
             M_tok = struct_regex("Route", tmodel)
             # ---- README: character classes and token-level language
             R_char, rclasses = readme_language(os.path.join(REPO, "internal/route/README.md"), token_level=False)
@@ -643,7 +652,7 @@ def analyse(tier, seed):
         d_regex_doc = class_query("chars README <any> allows but the lexer's Regex rejects", rclasses["regex"], regex_cls)
 
         # ---- (2) token-level grammar equivalence, modulo what the stateful lexer can emit
-        sigma = '(re.union (str.to_re "i") (str.to_re "g") (str.to_re "/") (str.to_re "?") (str.to_re "{") (str.to_re "}") (str.to_re ":") (str.to_re ",") (str.to_re " "))'
+        sigma = '(re.union (str.to_re "i") (str.to_re "g") (str.to_re "/") (str.to_re "?") (str.to_re "{") (str.to_re "}") (str.to_re ":") (str.to_re ",") (str.to_re " ") (str.to_re "w"))'
         lexable = ("(re.inter (re.comp (re.++ (re.* SIG) (str.to_re \"ii\") (re.* SIG))) "
                    "(re.comp (re.++ (re.* SIG) (str.to_re \"g/i:\") (re.* SIG))) "
                    "(re.comp (re.++ (re.* SIG) (str.to_re \":i:\") (re.* SIG))) "
@@ -714,7 +723,7 @@ def analyse(tier, seed):
                 if v == "sat" and w is not None:
                     samples.add(w)
         # concrete instances of the token-level witnesses and of the class differences
-        inst = {"i": "a", "g": "x"}
+        inst = {"i": "a", "g": "x", "w": "\t"}
         for w in tok_witness.values():
             samples.add("".join(inst.get(c, c) for c in w))
         for _, w in bmc_witnesses:
